@@ -237,6 +237,8 @@ class Esc:
                 return b + '.' + e.attr if b else None
             return None
 
+        getbind = {}      # local -> (mapping text, key text) when bound to mapping.get(key)
+
         def is_nullable(e):
             p = apath(e)
             if p and p in nonnull:
@@ -289,6 +291,15 @@ class Esc:
             if p and truth:
                 out.add(p)
                 out.add('nonempty:' + p)
+            # a truthy `m.get(k)` (directly, or through the local it was bound to) means k is present in m
+            g = test
+            if isinstance(g, ast.Compare) and len(g.ops) == 1 and isinstance(g.ops[0], ast.IsNot) and isinstance(g.comparators[0], ast.Constant) \
+                    and g.comparators[0].value is None:
+                g = g.left
+            if truth and isinstance(g, ast.Name) and g.id in getbind:
+                out.add('in:' + getbind[g.id][0] + ':' + getbind[g.id][1])
+            if truth and isinstance(g, ast.Call) and isinstance(g.func, ast.Attribute) and g.func.attr == 'get' and len(g.args) == 1:
+                out.add('in:' + ast.unparse(g.func.value) + ':' + ast.unparse(g.args[0]))
             return out
 
         def const_test(test):
@@ -748,6 +759,12 @@ class Esc:
             assign_types(s)
             if isinstance(s, ast.Assign) and isinstance(s.value, ast.Subscript):
                 nonnull.add('found:' + ast.unparse(s.value.value) + ':' + ast.unparse(s.value.slice))
+            if isinstance(s, ast.Assign) and len(s.targets) == 1 and isinstance(s.targets[0], ast.Name):
+                v_ = s.value
+                if isinstance(v_, ast.Call) and isinstance(v_.func, ast.Attribute) and v_.func.attr == 'get' and len(v_.args) == 1:
+                    getbind[s.targets[0].id] = (ast.unparse(v_.func.value), ast.unparse(v_.args[0]))
+                else:
+                    getbind.pop(s.targets[0].id, None)
             if isinstance(s, ast.Assign) and len(s.targets) == 1 and isinstance(s.targets[0], ast.Tuple) \
                     and isinstance(s.value, ast.Tuple) is False:
                 # tuple unpack of a call result
